@@ -95,7 +95,7 @@ def compile_function(fn, self_obj, tag: str) -> Tuple[List[Dict[str, Any]], Dict
                     v = newreg()
                     st = {"kind": "read", "var": arg, "reg": v.reg, "op": op, "offset": ins.offset}
                 else:
-                    v = AV("obj", deps=[])
+                    v = AV("obj", deps=[], shared_attr=arg)       # another attribute of the shared object: its value is state
             elif o.kind == "lock" and arg in ("acquire", "release", "__enter__", "__exit__"):
                 v = AV("lockmethod", name=o.name, method=arg)
             else:
@@ -168,6 +168,10 @@ def compile_function(fn, self_obj, tag: str) -> Tuple[List[Dict[str, Any]], Dict
                 stack.append(AV("obj", deps=deps))
         elif op in ("POP_JUMP_IF_NOT_NONE", "POP_JUMP_IF_NONE"):
             v = stack.pop()
+            if getattr(v, "shared_attr", None) is not None:
+                # e.g. a lock that is created on first use: which way this goes depends on what other threads did; the
+                # straight-line model cannot decide it statically
+                raise Untranslatable(f"branch on the value of the shared attribute {v.shared_attr!r}")
             if v.kind in ("int", "const", "obj", "true"):
                 is_none = False
             elif v.kind == "none":
